@@ -719,8 +719,13 @@ class InterfaceClass(_InterfaceClassBase):
                 if '__classcell__' in attrs
                 else {}
             )
-            if '__adapt__' in needs_custom_class:
-                # We need to tell the C code to call this.
+            if (
+                '__adapt__' in needs_custom_class or
+                getattr(cls, '_CALL_CUSTOM_ADAPT', None)
+            ):
+                # We need to tell the C code to call this. The C code
+                # only looks in the generated class's own dict, so an
+                # inherited custom ``__adapt__`` is flagged again.
                 needs_custom_class['_CALL_CUSTOM_ADAPT'] = 1
 
             if issubclass(cls, _InterfaceClassWithCustomMethods):
